@@ -309,6 +309,7 @@ def merge_percentiles(finalq, qs, vals, method="lower", Ns=None, raise_on_nan=Tr
         left = np.searchsorted(combined_q, desired_q, side="left")
         right = np.searchsorted(combined_q, desired_q, side="right") - 1
         np.minimum(left, len(combined_vals) - 1, out=left)  # don't exceed max index
+        np.maximum(right, 0, out=right)  # don't wrap around below the first index
         lower = np.minimum(left, right)
         upper = np.maximum(left, right)
         if method == "lower":
@@ -329,6 +330,13 @@ def merge_percentiles(finalq, qs, vals, method="lower", Ns=None, raise_on_nan=Tr
                 "interpolation method can only be 'linear', 'lower', "
                 "'higher', 'midpoint', or 'nearest'"
             )
+    # At or beyond the ends of the combined distribution the answer is the
+    # smallest / largest known value (the per-chunk extremes are exact): knots
+    # that carry no observations must not be picked up at the low end, and
+    # rounding in ``combined_q`` must not push the top percentile into the
+    # last interval
+    rv[desired_q <= combined_q[0]] = combined_vals[0]
+    rv[finalq >= max(q[-1] for q in qs)] = combined_vals[-1]
     return rv
 
 
